@@ -1,6 +1,7 @@
 (* C14 — Sequencers hand out disjoint gap-free ranges; cursor is the published prefix. *)
-From Coq Require Import List Arith Lia.
+From Coq Require Import List Arith NArith Lia.
 From DC Require Import Disruptor.Claims Disruptor.Pipeline.
+From DC Require Disruptor.SeqApi Disruptor.SeqApiProofs.
 Import ListNotations.
 
 (* concurrent claims by any number of threads (any interleaving of loads and compare-and-swaps on the high
@@ -42,7 +43,18 @@ Proof.
   split; [exact C1|]. intros Hi Hp. rewrite Hi in C4. split; [apply C3, Hp | exact C4].
 Qed.
 
+(* SingleProducerSequencer driven through the Sequencer API, EVERY history of its producer thread (counts >= 1, no
+   blocking claim, publishes in claim order, any number of claims outstanding, any consumer progress): the extracted
+   property checker - contiguous claims of the requested length; cursor monotone, never past an unpublished sequence,
+   equal to the highest claim once everything is published - accepts the model's history.  The same checker judges
+   the implementation's histories in the correspondence run. *)
+Theorem C14_single_sequencer_api : forall size ng l,
+  SeqApiProofs.sp_wf (SeqApi.sp_init size ng) [] l = true ->
+  SeqApi.check true SeqApi.c_init l (SeqApi.sp_run (SeqApi.sp_init size ng) l) = 0%N.
+Proof. exact SeqApiProofs.sp_property. Qed.
+
 Print Assumptions C14_claims_tile_in_claim_order.
+Print Assumptions C14_single_sequencer_api.
 Print Assumptions C14_claims_pairwise_disjoint.
 Print Assumptions C14_claims_cover_without_gaps.
 Print Assumptions C14_claims_have_requested_length.
